@@ -44,6 +44,8 @@ type C20Call struct {
 	FailOpenAt int `json:"fail_open_at,omitempty"`
 	// UsersetSubject: the subject is a userset instead of a user
 	UsersetSubject bool `json:"userset_subject,omitempty"`
+	// FailNextAt: the n-th datastore Next of the call fails with a datastore error, the request is not cancelled (0 = never)
+	FailNextAt int `json:"fail_next_at,omitempty"`
 }
 
 type C20Case struct {
@@ -60,7 +62,7 @@ type C20Case struct {
 
 func genC20(t *rapid.T) C20Case {
 	c := C20Case{
-		Family:   rapid.IntRange(0, 3).Draw(t, "family"),
+		Family:   rapid.IntRange(0, 4).Draw(t, "family"),
 		Chain:    rapid.IntRange(3, 40).Draw(t, "chain"),
 		Cycle:    rapid.Bool().Draw(t, "cycle"),
 		Fanout:   []int{0, 5, 50, 150, 300}[rapid.IntRange(0, 4).Draw(t, "fanout")],
@@ -82,7 +84,11 @@ func genC20(t *rapid.T) C20Case {
 		case 0, 1:
 			call.CancelAt = rapid.IntRange(1, 40).Draw(t, "cancelAt")
 		case 2:
-			call.FailOpenAt = rapid.IntRange(1, 8).Draw(t, "failOpenAt")
+			if rapid.Bool().Draw(t, "failAtNext") {
+				call.FailNextAt = rapid.IntRange(1, 12).Draw(t, "failNextAt")
+			} else {
+				call.FailOpenAt = rapid.IntRange(1, 8).Draw(t, "failOpenAt")
+			}
 		}
 		c.Calls = append(c.Calls, call)
 	}
@@ -151,6 +157,30 @@ func c20World(c C20Case) (gen.World, string, string) {
 		}
 		for j := 0; j < c.Fanout; j++ {
 			ts = append(ts, m.Tuple{Object: fmt.Sprintf("group:%d", j%(c.Chain+1)), Relation: "member", User: fmt.Sprintf("user:f%d", j)})
+		}
+	case 4: // a userset whose target relation is a set operation (the weight-2 strategy merges sorted operand streams)
+		objType, rel = "doc", "viewer"
+		op := m.Difference
+		if c.Cycle {
+			op = m.Intersection
+		}
+		direct := func(n string) m.Relation {
+			return m.Relation{Name: n, Rewrite: &m.Rewrite{Kind: m.This}, Restr: []m.Restriction{{Type: "user"}}}
+		}
+		mo = &m.Model{Types: []m.TypeDef{{Name: "user"},
+			{Name: "group", Relations: []m.Relation{direct("a"), direct("b"), direct("c"),
+				{Name: "member", Rewrite: &m.Rewrite{Kind: op, Children: []*m.Rewrite{
+					{Kind: m.Union, Children: []*m.Rewrite{{Kind: m.Computed, Rel: "a"}, {Kind: m.Computed, Rel: "b"}}}, {Kind: m.Computed, Rel: "c"}}}}}},
+			{Name: "doc", Relations: []m.Relation{{Name: "viewer", Rewrite: &m.Rewrite{Kind: m.This}, Restr: []m.Restriction{{Type: "group", Rel: "member"}}}}}}}
+		for i := 0; i <= c.Chain; i++ {
+			ts = append(ts, m.Tuple{Object: fmt.Sprintf("doc:%d", i), Relation: "viewer", User: fmt.Sprintf("group:%d#member", i)},
+				m.Tuple{Object: fmt.Sprintf("doc:%d", i), Relation: "viewer", User: fmt.Sprintf("group:%d#member", (i+1)%(c.Chain+1))})
+			for u := 0; u < 4; u++ {
+				ts = append(ts, m.Tuple{Object: fmt.Sprintf("group:%d", i), Relation: []string{"a", "b", "c"}[(i+u)%3], User: fmt.Sprintf("user:%d", u)})
+			}
+		}
+		for j := 0; j < c.Fanout; j++ {
+			ts = append(ts, m.Tuple{Object: fmt.Sprintf("group:f%d", j), Relation: "a", User: "user:1"})
 		}
 	default: // two mutually recursive types with exclusion on top
 		objType, rel = "doc", "can"
@@ -245,6 +275,9 @@ func checkC20(env *fw.Env, c C20Case) *fw.Failure {
 		if call.FailOpenAt > 0 {
 			fd.armOpen(call.FailOpenAt)
 		}
+		if call.FailNextAt > 0 && call.CancelAt == 0 {
+			fd.arm(call.FailNextAt, nil, true)
+		}
 		var err error
 		nexts0 := fd.nexts.Load()
 		t0 := time.Now()
@@ -274,6 +307,12 @@ func checkC20(env *fw.Env, c C20Case) *fw.Failure {
 		fired := false
 		if call.CancelAt > 0 {
 			fired = fd.disarm()
+		}
+		if call.FailNextAt > 0 && call.CancelAt == 0 && fd.disarm() {
+			classes = append(classes, "datastore-read-failed")
+			if err != nil {
+				landed = true
+			}
 		}
 		if call.FailOpenAt > 0 && fd.disarmOpen() {
 			classes = append(classes, "datastore-open-failed")
